@@ -1,0 +1,5 @@
+//go:build !verif
+
+package bpmn
+
+func verifAt(point string, args ...any) {}
